@@ -72,11 +72,7 @@ impl Drop for ChildWorker {
 }
 
 fn crash_site(scn: &Scenario) -> (&'static str, &'static str) {
-    match scn {
-        Scenario::MapViews(_) => ("crash", "mapped-views"),
-        Scenario::MapLife(_) => ("crash", "MemoryMap"),
-        _ => ("crash", "worker"),
-    }
+    ("crash", scn.kind())
 }
 
 /// Child side: one JSON scenario per input line, one JSON outcome per output line.
@@ -108,8 +104,10 @@ impl Executor {
         Executor { prop: prop.to_string(), child: ChildWorker::new(prop) }
     }
 
+    /// Triage (narrowing, shrinking, replay) always uses the child: a candidate may crash.
     pub fn run(&mut self, scn: &Scenario) -> Outcome {
-        if scn.needs_child() { self.child.run(scn) } else { scn.run(&self.prop) }
+        let _ = &self.prop;
+        self.child.run(scn)
     }
 
     pub fn crashes(&self) -> u64 {
